@@ -190,5 +190,15 @@ func TestC01Sweep(t *testing.T) {
 			cases = append(cases, statCase{Test: "blockAuto", Seq: gen.Seq{Family: "biased", N: n, Seed: uint64(2000 + i), F: 0.48}})
 		}
 	}
+	if mode != "huge" {
+		// byte fast paths with large pattern counts (constant / heavily biased / long inputs)
+		for _, q := range []gen.Seq{{Family: "constant", N: 1000000, A: 1}, {Family: "biased", N: 1000000, Seed: 3, F: 0.9}, {Family: "biased", N: 1000000, Seed: 4, F: 0.05},
+			{Family: "periodic", N: 1000000, Bits: "00010001"}, {Family: "uniform", N: 4800000, Seed: 5}} {
+			for _, m := range []int{4, 8} {
+				cases = append(cases, statCase{Test: "pokerBytes", M: m, Seq: q})
+			}
+			cases = append(cases, statCase{Test: "monobitBytes", Seq: q})
+		}
+	}
 	enumerate(t, "C01", cases, checkC01)
 }
